@@ -162,3 +162,98 @@ def stacking_render(case):
         out = flatten_ctx(sc)
         res.append(dict(nodes=nodes, out=out, identity=_identity_ok(sc)))
     return res
+
+
+# ------------------------------------------------------------------------- full render + layout records
+
+def _rgba(c):
+    """tinycss2 color4 Color -> [r, g, b, a] (floats 0..1) or None."""
+    if c is None or c == 'currentcolor':
+        return None
+    try:
+        c = c.to('srgb')
+    except Exception:
+        pass
+    co = list(c.coordinates) if hasattr(c, 'coordinates') else [c.red, c.green, c.blue]
+    return [float(x or 0) for x in co[:3]] + [float(c.alpha if c.alpha is not None else 1)]
+
+
+def _num(x):
+    return float(x) if isinstance(x, (int, float)) else None
+
+
+def _box_record(box, page):
+    from weasyprint.formatting_structure import boxes as B
+    from weasyprint.draw.color import get_color
+    st = box.style
+    rec = box_info(box, page)
+    rec.update(
+        x=_num(box.position_x), y=_num(box.position_y), w=_num(box.width), h=_num(box.height),
+        tag=box.element_tag, eid=(box.element.get('id') if box.element is not None else None),
+        visible=(st['visibility'] == 'visible'), opacity=float(st['opacity']),
+        position=rec['pos'], floated=rec['flt'],
+        overflow=st['overflow'], color=_rgba(st['color']), bgcolor=_rgba(get_color(st, 'background_color')),
+        bgclip=list(st['background_clip']), anonymous=bool(getattr(box, 'is_anonymous', False)) if False else None)
+    for side in ('top', 'right', 'bottom', 'left'):
+        rec['m' + side[0]] = _num(getattr(box, 'margin_' + side, 0))
+        rec['p' + side[0]] = _num(getattr(box, 'padding_' + side, 0))
+        rec['b' + side[0]] = _num(getattr(box, 'border_%s_width' % side, 0))
+        rec['bc' + side[0]] = _rgba(get_color(st, 'border_%s_color' % side))
+        rec['bs' + side[0]] = st['border_%s_style' % side]
+    rec['radii'] = [[_num(v.value) if hasattr(v, 'value') else _num(v) for v in st['border_%s_radius' % c]]
+                    for c in ('top_left', 'top_right', 'bottom_right', 'bottom_left')]
+    tf = []
+    for name, args in (st['transform'] or ()):
+        def conv(a):
+            if hasattr(a, 'value'):
+                return [float(a.value), a.unit]
+            if isinstance(a, (tuple, list)):
+                return [conv(x) for x in a]
+            return float(a)
+        tf.append([name, conv(args)])
+    rec['transform'] = tf
+    rec['torigin'] = [[float(v.value), v.unit] for v in st['transform_origin'][:2]]
+    if isinstance(box, B.TextBox):
+        rec['text'] = box.text
+        rec['baseline'] = _num(box.baseline)
+        rec['font_size'] = float(st['font_size'])
+    if isinstance(box, B.LineBox):
+        rec['baseline'] = _num(getattr(box, 'baseline', None))
+    if isinstance(box, B.TableBox):
+        rec['collapse'] = st['border_collapse'] == 'collapse'
+    rec['is_root'] = bool(box.is_for_root_element)
+    rec['has_bg'] = box.background is not None if hasattr(box, 'background') else None
+    return rec
+
+
+def _records(box, page, out, parent):
+    box = _unwrap(box)
+    n = len(out)
+    box._c17_id = n
+    rec = _box_record(box, page)
+    rec['parent'] = parent
+    rec['kids'] = []
+    out.append(rec)
+    for c in getattr(box, 'children', None) or []:
+        rec['kids'].append(_records(c, page, out, n))
+    return n
+
+
+def render_display(case):
+    """case: dict(html=..., opts=...).  Returns dict(pdf=latin-1 str of the uncompressed PDF, pages=[dict(
+    boxes=[records in preorder], out=flattened StackingContext.from_page, width, height)])."""
+    from tests.testing_utils import FakeHTML
+    from weasyprint.stacking import StackingContext
+    doc = FakeHTML(string=case['html']).render()
+    pages = []
+    for p in doc.pages:
+        page = p._page_box
+        recs = []
+        _records(page, page, recs, None)
+        sc = StackingContext.from_page(page)
+        canvas = getattr(page, 'canvas_background', None)
+        pages.append(dict(boxes=recs, out=flatten_ctx(sc), identity=_identity_ok(sc),
+                          width=float(page.margin_width()), height=float(page.margin_height()),
+                          canvas=(_rgba(canvas.color) if canvas else None)))
+    pdf = doc.write_pdf(uncompressed_pdf=True)
+    return dict(pdf=pdf.decode('latin-1'), pages=pages)
